@@ -1209,6 +1209,29 @@ pub fn scenario(rng: &mut Rng, sink: &mut Sink, which: &str) {
             w.tx(sink, &user(1), "deployInterchainToken", 0, "-", &a);
             sink.exec(&format!("bal {} MTK-abcdef", hex::encode(user(1))));
         }
+        // F7: with the service itself nominated as minter the third factory step can be repeated: the initial
+        // supply is minted again (and again)
+        "F7" => {
+            let its = w.its.clone();
+            let a = vec![vec![9u8; 32], b"My Token".to_vec(), b"MTK".to_vec(), vec![18], nat(1000), its.clone()];
+            let out = w.tx(sink, &user(1), "deployInterchainToken", 0, "-", &a);
+            w.track(&out, PendK::Issue);
+            let out = w.tx(sink, &user(1), "deployInterchainToken", 50000000000000000, "-", &a);
+            w.track(&out, PendK::Issue);
+            let id = w.pend.last().map(|p| p.0).unwrap_or(0);
+            sink.exec(&format!("deliver {} ok {}", id, hex::encode(b"MTK-abcdef")));
+            sink.exec(&format!("roles {} MTK-abcdef ESDTRoleLocalMint,ESDTRoleLocalBurn", hex::encode(tm_addr(w.next_tm - 1))));
+            sink.exec(&format!("cb {}", id));
+            w.tx(sink, &user(1), "deployInterchainToken", 0, "-", &a);
+            sink.exec(&format!("bal {} MTK-abcdef", hex::encode(user(1))));
+            // the same request again: the supply is minted a second time
+            w.tx(sink, &user(1), "deployInterchainToken", 0, "-", &a);
+            sink.exec(&format!("bal {} MTK-abcdef", hex::encode(user(1))));
+            // … and a third time with another amount
+            let a2 = vec![vec![9u8; 32], b"My Token".to_vec(), b"MTK".to_vec(), vec![18], nat(5000000), its.clone()];
+            w.tx(sink, &user(1), "deployInterchainToken", 0, "-", &a2);
+            sink.exec(&format!("bal {} MTK-abcdef", hex::encode(user(1))));
+        }
         _ => panic!("unknown scenario"),
     }
 }
